@@ -45,6 +45,41 @@ FixedLogical(name, size, lt) == JObj(<<T("fixed"), Nm(name), <<"size", JInt(size
 FixedDec(name, size, p, sc) ==
   JObj(<<T("fixed"), Nm(name), <<"size", JInt(size)>>, <<"logicalType", S("decimal")>>, <<"precision", JInt(p)>>, <<"scale", JInt(sc)>>>>)
 
+
+(***************************************************************************)
+(* The specification's own example (section "Names"): "The fullname is     *)
+(* 'Simple'", "'explicit.Simple'", "'a.full.Name', and the namespace is    *)
+(* 'a.full'", "'a.full.Understanding'".                                    *)
+(***************************************************************************)
+SpecNamesExample ==
+  Rec("Example", <<
+    Field("inheritNull", Enum("Simple", <<"a", "b">>)),
+    Field("explicitNamespace", FixedNs("Simple", "explicit", 12)),
+    Field("fullName", RecNs("a.full.Name", "ignored", <<
+        Field("inheritNamespace", Enum("Understanding", <<"d", "e">>))>>))>>)
+
+ASSUME DefinedNames(SpecNamesExample) = {U("Example"), U("Simple"), U("explicit.Simple"), U("a.full.Name"), U("a.full.Understanding")}
+ASSUME Meaning(SpecNamesExample).fields[3].type.fields[1].type.name = U("a.full.Understanding")
+
+(* worked examples of the canonical-form rules (in the style of the Avro project's schema-tests data) *)
+ASSUME PCF(JObj(<<T("null")>>)) = S("null")
+ASSUME PCF(JObj(<<T("fixed"), Nm("Test"), <<"size", JInt(1)>>>>)) = JObj(<<Nm("Test"), T("fixed"), <<"size", JInt(1)>>>>)
+ASSUME PCF(Arr(JObj(<<T("long")>>))) = JObj(<<T("array"), <<"items", S("long")>>>>)
+ASSUME PCF(JObj(<<Ns("x.y"), T("enum"), Nm("E"), <<"doc", S("d")>>, <<"symbols", JArr(<<S("A")>>)>>>>))
+         = JObj(<<Nm("x.y.E"), T("enum"), <<"symbols", JArr(<<S("A")>>)>>>>)
+ASSUME PCF(Rec("ns.int", <<Field("value", S("int")), Field("next", JArr(<<S("null"), S("ns.int")>>))>>))
+         = JObj(<<Nm("ns.int"), T("record"), <<"fields", JArr(<<Field("value", S("int")), Field("next", JArr(<<S("null"), S("ns.int")>>))>>)>>>>)
+ASSUME PCF(Logical("int", "date")) = S("int")
+ASSUME PCF(Dec(4, 2)) = S("bytes")
+(* ... and what the named deviations (known findings) make of them *)
+ASSUME PCFd(Logical("int", "date"), NoNs, {"C12-logical-primitive-object"}) = JObj(<<T("int")>>)
+ASSUME PCFd(Dec(4, 2), NoNs, {"C12-logical-primitive-object", "C12-extra-keys-kept"})
+         = JObj(<<T("bytes"), <<"precision", JInt(4)>>, <<"scale", JInt(2)>>>>)
+ASSUME PCFd(Dec(4, 2), NoNs, {"C12-extra-keys-kept"}) = S("bytes")
+ASSUME LoseNullNs(Meaning(Rec("ns.R", <<Field("a", FixedNs("F", "", 1))>>)), <<>>).fields[1].type.name = U("ns.F")
+ASSUME Meaning(Rec("ns.R", <<Field("a", FixedNs("F", "", 1))>>)).fields[1].type.name = U("F")
+ASSUME Meaning(Rec("ns.R", <<Field("a", Fixed(".F", 1))>>)).fields[1].type.name = U("F")
+
 Prims == {S(p) : p \in PrimNames}
 
 LogicalLeaves ==
